@@ -239,6 +239,10 @@ def _merge(ctx, res):
         raise common.HarnessError(res["error"])
     for (stream, ep, outcome), k in res["counts"].items():
         ctx.count(stream, outcome, k)
+        if stream == "consumers.matrix":
+            h = ctx.hist.setdefault("consumers.matrix", {})
+            h[ep] = h.get(ep, 0) + k
+            continue
         if stream in ("trailing.class", "trailing.seeds", "trailing.reser"):
             h = ctx.hist.setdefault(stream + ("." + outcome if stream != "trailing.class" else ""), {})
             if stream == "trailing.class":
@@ -384,6 +388,8 @@ def run(ctx):
         tasks.append(("spell", ctx.rng.getrandbits(62), ctx.n(700, 8000)))
         tasks.append(("coreimport", ctx.rng.getrandbits(62), ctx.n(1500, 40000)))
         tasks.append(("msdecode", (ctx.rng.getrandbits(60) << 1) | part, ctx.n(9000, 10**7)))
+    for part in range(4):           # every class's accepted objects through the whole introspected consumer matrix
+        tasks.append(("matrix", (ctx.rng.getrandbits(56) << 2) | part, ctx.n(800, 40000)))
     for part in range(8):           # trailing bytes after every parse(stream) entry point: entry point k goes to task k mod 8
         tasks.append(("trailing", (ctx.rng.getrandbits(56) << 3) | part, ctx.n(1200, 60000)))
     for part in range(16):          # the typed-hostile sweep of every bool-returning callable: entry point k goes to task k mod 16
@@ -499,6 +505,14 @@ def run(ctx):
     for e in beps:
         if (C.is_verifier(e) or e in Ty.ASSERTION_EPS) and e.replace("btclib.", "") not in tcalls:
             raise common.HarnessError(f"typed sweep: anchored verifier {e} was not driven")
+    # the consumer matrix: every (type, consumer) pair found by introspection, with the calls it received
+    from . import c19_matrix as M
+    mx = M.matrix()
+    pairs = sorted({f"{q.replace('btclib.', '')}({pn})" for rows in mx.values() for q, _, pn, _, _ in rows})
+    got = ctx.hist.get("consumers.matrix", {})
+    ctx.note(f"consumer matrix by introspection: {len(mx)} parameter types, {len(pairs)} (consumer, parameter) pairs declared over them; "
+             f"{len(got)} pairs received an accepted object in this run ({sum(got.values())} calls); the pairs never reached are those whose "
+             f"type no parser of this run returned or whose other required parameters have no plausible value")
     # the trailing-bytes oracle: every parse(stream) entry point is classified and listed
     seps = St.stream_entry_points()
     tcls = ctx.hist.pop("trailing.class", {})
